@@ -12,27 +12,28 @@ import (
 
 // GraphOpts steers the generic acyclic-graph generator.
 type GraphOpts struct {
-	MaxProcs    int
-	Lens        []int // candidate stream lengths of the sources
-	Buf         int   // SCIPIPE_BUFSIZE the graph will run under (for the unequal-length guard)
-	FanIn       bool
-	Params      bool
-	GoFunc      bool
-	MultiOut    bool
-	Portless    bool
-	SubDirs     bool
-	Recorders   bool
-	ParamComb   bool
-	Prepend     bool
-	Cores       int // max CoresPerTask (<= MaxTasks)
-	MaxTasks    int
-	SleepMax    int // ms, 0 = none
-	Leaf        bool // allow processes without out-ports (driver shapes)
-	MapTags     bool
-	NoUnequal   bool
-	DirOut      bool // some outputs are directories
-	Join        bool // StreamToSubStream + joined in-port shapes
-	TagShared   bool // MapToTags also on streams that have other consumers (C12)
+	MaxProcs  int
+	Lens      []int // candidate stream lengths of the sources
+	Buf       int   // SCIPIPE_BUFSIZE the graph will run under (for the unequal-length guard)
+	FanIn     bool
+	Params    bool
+	GoFunc    bool
+	WriteAPI  bool // some Go-function processes use the documented Task / FileIP API (Read, Open, Write, InPath, OutPath, Param) instead of the harness protocol; not for fault-injecting checks
+	MultiOut  bool
+	Portless  bool
+	SubDirs   bool
+	Recorders bool
+	ParamComb bool
+	Prepend   bool
+	Cores     int // max CoresPerTask (<= MaxTasks)
+	MaxTasks  int
+	SleepMax  int  // ms, 0 = none
+	Leaf      bool // allow processes without out-ports (driver shapes)
+	MapTags   bool
+	NoUnequal bool
+	DirOut    bool // some outputs are directories
+	Join      bool // StreamToSubStream + joined in-port shapes
+	TagShared bool // MapToTags also on streams that have other consumers (C12)
 }
 
 type stream struct {
@@ -41,8 +42,8 @@ type stream struct {
 	amb   bool
 	param bool
 	uses  int
-	multi bool // produced by a multi-output task
-	alias string // port of the stream whose items this stream carries unchanged
+	multi bool     // produced by a multi-output task
+	alias string   // port of the stream whose items this stream carries unchanged
 	tags  []string // tag keys carried by the items
 }
 
@@ -348,6 +349,15 @@ func Graph(rng *rand.Rand, name string, o GraphOpts) *spec.Spec {
 			p.Prepend = "env VERIF_PREPENDED=1"
 		}
 		p.Cmd = spec.BuildCmd(pname, ins, outs, params, tagArgs, opts)
+		if o.WriteAPI && p.Kind == spec.KGoFunc && !joinProc && rng.Intn(2) == 0 {
+			plain := true
+			for _, od := range outs {
+				if od.Dir || od.Stream {
+					plain = false
+				}
+			}
+			p.WriteAPI = plain
+		}
 		s.Procs = append(s.Procs, p)
 		for _, od := range outs {
 			streams = append(streams, &stream{port: pname + "." + od.Name, n: n, amb: amb, multi: len(outs) > 1, tags: append([]string{}, inTags...)})
